@@ -36,7 +36,8 @@ class SelectorWorld:
                'allow_None': rng.random() < 0.3,
                'watch': rng.random() < 0.7,
                'hold': rng.random() < 0.4,
-               'unchecked': rng.random() < 0.25}
+               'unchecked': rng.random() < 0.25,
+               'none_obj': rng.random() < 0.2}
         n_ops = min(60 if big else 30, 2 + int(rng.expovariate(1 / (14.0 if big else 8.0))))
         ops = []
         style = cfg['style']
@@ -47,7 +48,7 @@ class SelectorWorld:
                                    ('assign_new', 2 if cfg['unchecked'] else 0)])
             else:
                 k = weighted(rng, [('setkey', 3), ('newkey', 3), ('update', 2), ('popkey', 3), ('pop', 1.5), ('remove', 2), ('clear', 0.5),
-                                   ('replace', 1), ('assign', 3), ('assign_absent', 1)])
+                                   ('replace', 1), ('assign', 3), ('assign_absent', 1), ('assign_new', 2 if cfg['unchecked'] else 0)])
             op = {'op': k, 'i': rng.randint(0, 7)}
             if k in ('extend', 'update'):
                 op['n'] = rng.randint(0, 3)
@@ -83,6 +84,8 @@ class SelectorWorld:
 
         def fresh():
             counter[0] += 1
+            if cfg.get('none_obj') and counter[0] == 2:
+                return None         # None is an object like any other (once: objects are unique)
             return f"o{counter[0]}" if cfg['otype'] == 'str' else 100 + counter[0]
 
         def key():
@@ -96,7 +99,9 @@ class SelectorWorld:
             items.append((key() if style == 'dict' else str(o), o))
         decl = dict(items) if style == 'dict' else [o for _, o in items]
         P = getattr(param, cfg['kind'])
-        unchecked = bool(cfg.get('unchecked')) and style == 'list'
+        unchecked = bool(cfg.get('unchecked'))
+        unnamed = []        # objects an unchecked dict-declared selector took in through a value assignment: they have no name,
+                            # get_range() lists them under str(object), names and objects.items() leave them out
         kw = {'objects': decl, 'allow_None': cfg['allow_None']}
         if unchecked:
             kw['check_on_set'] = False          # unknown values are added to the objects instead of being rejected
@@ -118,6 +123,9 @@ class SelectorWorld:
                 nm = list(pobj.names.values())
                 ev_new = events[-1].new
                 ev_objs = list(ev_new.values()) if isinstance(ev_new, dict) else list(ev_new)
+                if unnamed and nm:
+                    lst = [o_ for o_ in lst if not any(o_ is u for u in unnamed)]
+                    rng_ = [o_ for o_ in rng_ if not any(o_ is u for u in unnamed)]
                 if lst != rng_ or (nm and nm != lst) or ev_objs != lst:
                     inconsistent.append(f"list {lst!r} range {rng_!r} names {nm!r} event.new {ev_objs!r}")
 
@@ -144,12 +152,18 @@ class SelectorWorld:
             v1 = list(pobj.objects)
             if v1 != exp_objs:
                 return viol('C18.views', f"after {opname}: list(objects) = {v1!r}, expected {exp_objs!r}", step)
+            named = [(n_, o_) for n_, o_ in items if not any(o_ is u for u in unnamed)] if style == 'dict' else items
             v2 = list(pobj.objects.items())
-            if v2 != items:
-                return viol('C18.views', f"after {opname}: objects.items() = {v2!r}, expected {items!r} (names = {dict(pobj.names)!r})", step)
             names = list(pobj.names.items())
-            if style == 'dict' and names != items:
-                return viol('C18.views', f"after {opname}: names = {names!r}, expected {items!r}", step)
+            if style == 'dict' and not named and items:
+                # no name is left: the remaining (unnamed) objects are listed under str(object), as on a list-declared selector
+                if v2 != items or names:
+                    return viol('C18.views', f"after {opname}: objects.items() = {v2!r}, names = {names!r}; expected {items!r} and no names", step)
+            else:
+                if v2 != named:
+                    return viol('C18.views', f"after {opname}: objects.items() = {v2!r}, expected {named!r} (names = {dict(pobj.names)!r})", step)
+                if style == 'dict' and names != named:
+                    return viol('C18.views', f"after {opname}: names = {names!r}, expected {named!r}", step)
             if style == 'list' and names:
                 return viol('C18.views', f"after {opname}: names = {names!r} on a list-declared selector", step)
             v4 = list(pobj.get_range().items())
@@ -164,7 +178,7 @@ class SelectorWorld:
                     return viol('C18.membership', f"after {opname}: current object {o!r} rejected: {type(e).__name__}", step)
             if unchecked:
                 return
-            absent = removed[-1] if removed and removed[-1] not in exp_objs else 'never-present'
+            absent = removed[-1] if removed and removed[-1] not in exp_objs and removed[-1] is not None else 'never-present'
             try:
                 setattr(holder, 'sel', [absent] if cfg['kind'] == 'ListSelector' else absent)
             except ValueError:
@@ -180,6 +194,7 @@ class SelectorWorld:
                 break
             k = op['op']
             n = len(items)
+            unnamed[:] = [u for u in unnamed if any(u is o_ for _, o_ in items)]
             before = len(notes)
             before_c = len(notes_changed)
             items_before = list(items)
@@ -231,6 +246,9 @@ class SelectorWorld:
                     removed.extend(o for _, o in items)
                     removed_any = removed_any or bool(items)
                     del items[:]
+                elif k in ('setkey', 'popkey') and style == 'dict' and n and any(items[op['i'] % n][1] is u for u in unnamed):
+                    mutated = False
+                    k = None
                 elif k == 'setkey' and style == 'dict' and n:
                     i = op['i'] % n
                     o = fresh()
@@ -239,13 +257,17 @@ class SelectorWorld:
                     items[i] = (items[i][0], o)
                     removed_any = True
                 elif k == 'newkey' and style == 'dict':
+                    if unnamed and len(unnamed) == len(items):
+                        del unnamed[:]          # the first key given to a selector without names names every object by str(object)
                     o, kk = fresh(), key()
                     objs[kk] = o
                     items.append((kk, o))
                 elif k == 'update' and style == 'dict':
+                    if unnamed and len(unnamed) == len(items):
+                        del unnamed[:]
                     new = []
                     for j in range(op['n']):
-                        if n and j == 0 and op['j'] % 2:
+                        if n and j == 0 and op['j'] % 2 and not any(items[op['j'] % n][1] is u for u in unnamed):
                             kk = items[op['j'] % n][0]
                         else:
                             kk = key()
@@ -279,6 +301,7 @@ class SelectorWorld:
                     removed.extend(o for _, o in items)
                     pobj.objects = dict(new) if style == 'dict' else [o for _, o in new]
                     items[:] = new
+                    del unnamed[:]
                     held[0] = None
                 elif k == 'assign' and n:
                     o = items[op['i'] % n][1]
@@ -292,6 +315,8 @@ class SelectorWorld:
                     o = fresh()
                     setattr(holder, 'sel', [o, o] if cfg['kind'] == 'ListSelector' else o)
                     items.append((str(o), o))
+                    if style == 'dict':
+                        unnamed.append(o)
                     held[0] = None       # the objects changed behind a held proxy's back: fetch a new one
                     mutated = False      # not a mutation of `objects` through the proxy: no objects-notification is demanded
                 elif k == 'assign_absent':
@@ -313,7 +338,9 @@ class SelectorWorld:
                     viol('C18.notify_once', f"{k}: the objects watcher was called {len(notes) - before} times", step)
                 if cfg['watch'] and inconsistent:
                     viol('C18.views', f"{k}: when the objects watcher was notified the views disagreed: {inconsistent[0]}", step)
-                if cfg['watch'] and items != items_before and len(notes_changed) - before_c != 1:
+                only_unnamed = unnamed and [x for x in items if not any(x[1] is u for u in unnamed)] == \
+                    [x for x in items_before if not any(x[1] is u for u in unnamed)]
+                if cfg['watch'] and items != items_before and not only_unnamed and len(notes_changed) - before_c != 1:
                     viol('C18.notify_once', f"{k}: objects changed {items_before!r} -> {items!r} but the changes-only objects watcher was called "
                                             f"{len(notes_changed) - before_c} times", step)
             if check_ret and ret != exp_ret:
